@@ -5,6 +5,7 @@ From ReqV Require Import Lib.Bytes Lib.BigEndian Model.BodyFraming Model.StreamB
   Proofs.BodyFramingProofs Proofs.QuicVarintProofs Proofs.StreamBodyProofs Proofs.StreamWireProofs.
 From ReqV Require Model.H2Frame Proofs.StreamWireH2Proofs.
 From ReqV Require Import Model.Interim Proofs.InterimProofs.
+From ReqV Require Import Model.TlsConn Proofs.TlsConnProofs.
 Local Open Scope nat_scope.
 
 (* HTTP/1.1, Content-Length and chunked framing (every body, every chunk partition with any
@@ -64,6 +65,40 @@ Theorem C03_gzip_truncation_detected : forall (gunzip : bytes -> option bytes) h
             gz_result gunzip r = None.
 Proof. exact gzip_truncation_detected_thm. Qed.
 Print Assumptions C03_gzip_truncation_detected.
+
+(* ===================== HTTP/1.1 over TLS: the TCP stream cut at a point of the record layer =====================
+   recs: ANY way of cutting the response (header block + framed body) into TLS records;
+   [whole] records arrived completely.  If the TCP stream ends INSIDE the next record
+   (crypto/tls: io.ErrUnexpectedEOF) the exchange is an error under every framing - the
+   close-delimited one included - after a prefix of the body. *)
+Theorem C03_tls_midrecord_detected : forall hdr fr W body tb recs whole,
+  (framed fr W body tb \/ (fr = FrClose /\ W = body)) ->
+  concat recs = hdr ++ W -> whole < length recs -> nth whole recs [] <> [] ->
+  match h1_read_tls (N.of_nat (length hdr)) fr recs whole true with
+  | CallError => length (tls_arrived recs whole) < length hdr
+  | BodyRead r => length hdr <= length (tls_arrived recs whole) /\
+                  truncation_err (rd_err r) /\ exists m, rd_data r = firstn m body
+  end.
+Proof. exact tls_midrecord_detected_thm. Qed.
+Print Assumptions C03_tls_midrecord_detected.
+
+(* ending BETWEEN two records (io.EOF, no close_notify needed) it is exactly the plain-TCP cut
+   at that plaintext offset: the theorems above apply, close-delimited framing keeps its limit *)
+Theorem C03_tls_boundary_is_plain_cut : forall hlen fr recs whole,
+  h1_read_tls hlen fr recs whole false =
+  h1_read hlen fr (firstn (length (tls_arrived recs whole)) (concat recs)).
+Proof. exact tls_boundary_is_plain_cut_thm. Qed.
+Print Assumptions C03_tls_boundary_is_plain_cut.
+
+(* refuted: io.ErrUnexpectedEOF of a TLS connection rewritten to io.EOF *)
+Example C03_tls_rewritten_refuted :
+  let hdr := bs "HTTP/1.1 200 OK" ++ crlfcrlf in
+  let recs := [hdr; bs "hello "; bs "world"] in
+  h1_read_tls_rewritten (N.of_nat (length hdr)) FrClose recs 2 true =
+    BodyRead (mkRd (bs "hello ") Clean [] true []) /\
+  h1_read_tls (N.of_nat (length hdr)) FrClose recs 2 true =
+    BodyRead (mkRd (bs "hello ") UnexpectedEOF [] false []).
+Proof. exact tls_rewritten_refuted. Qed.
 
 (* ===================== HTTP/2 (transportResponseBody over the stream's frame events) =====================
    h2_sent = payload of the stream's DATA frames up to its terminal event (padding is no part of
